@@ -221,12 +221,10 @@ def leaderFirst (c : Cluster) (tps : List (String × List Int)) : Except RouteEr
   | [] => .error .panic
   | (_, []) :: _ => .error .panic
   | (tn, p :: _) :: _ =>
-    match ((lookupD c.topics tn Topic.zero).partitions.find? (fun e => e.2.id == p)) with
-    | some e =>
-      match c.brokers.lookup e.2.leader with
-      | some b => .ok b.id
-      | none => .ok (-1)
-    | none => .ok (-1)
+    -- the scan and the leader lookup are regenerated from the source (`Gen.Routing.listOffsetsBroker`)
+    .ok (KV.Gen.Routing.listOffsetsBroker
+      (((lookupD c.topics tn Topic.zero).partitions.find? (fun e => e.2.id == p)).map (·.2.leader))
+      (fun id => (c.brokers.lookup id).map (·.id)) Broker.zero.id)
 
 /-- `return cluster.Brokers[cluster.Controller], nil` -/
 def controllerBroker (c : Cluster) : Int := (lookupD c.brokers c.controller Broker.zero).id
@@ -394,6 +392,28 @@ def differs (b1 : Broker) : Option Broker → Bool
   | some b2 => brokersDiffer KV.Gen.Routing.updateCompare b1 b2
   | none => true
 
+/-- classification of a broker id of the new layout / of the old layout into (add set?, delete set?) — the two
+classification loops of `update`, regenerated from the source (`Gen.Routing.updateNewEntry`, `updateOldEntry`) -/
+def newClass (old new : List (Int × Broker)) (id : Int) : Bool × Bool :=
+  KV.Gen.Routing.updateNewEntry (old.lookup id).isSome
+    (match old.lookup id with | some b1 => differs b1 (new.lookup id) | none => false)
+
+def oldClass (new : List (Int × Broker)) (id : Int) : Bool × Bool :=
+  KV.Gen.Routing.updateOldEntry (new.lookup id).isSome
+
+def addSet (old new : List (Int × Broker)) : List Int :=
+  (keys new).filter (fun id => (newClass old new id).1) ++ (keys old).filter (fun id => (oldClass new id).1)
+
+def delSet (old new : List (Int × Broker)) : List Int :=
+  (keys new).filter (fun id => (newClass old new id).2) ++ (keys old).filter (fun id => (oldClass new id).2)
+
+/-- the two loops that apply the sets to `p.conns`, in the order of the source (`Gen.Routing.updateApplyOrder`):
+deleting first lets a changed broker (in both sets) end up with its new group; adding first would lose it -/
+def applySets (order : List KV.Gen.Routing.SetRole) (conns : List (Int × Addr)) (del : List Int)
+    (groups : List (Int × Addr)) : List (Int × Addr) :=
+  if order == [.del, .add] then conns.filter (fun e => !del.contains e.1) ++ groups
+  else (conns ++ groups).filter (fun e => !del.contains e.1)
+
 /-- (*connPool).update(metadata, err): a broker whose entry (id, host, port, rack) differs from the cached one in
 any field has its group closed and re-created at the new address (`b1 != b2` on the whole struct) -/
 def update (s : PoolState) (m : Option MResponse) (err : Bool) : PoolState :=
@@ -402,17 +422,8 @@ def update (s : PoolState) (m : Option MResponse) (err : Bool) : PoolState :=
   if err then
     if s.metadata.isSome then s else { s with err := true }
   else
-    let add := (keys layout.brokers).filter (fun id =>
-      match s.layout.brokers.lookup id with
-      | none => true
-      | some b1 => differs b1 (layout.brokers.lookup id))
-    let del := ((keys layout.brokers).filter (fun id =>
-      match s.layout.brokers.lookup id with
-      | none => false
-      | some b1 => differs b1 (layout.brokers.lookup id))) ++
-      ((keys s.layout.brokers).filter (fun id => (layout.brokers.lookup id).isNone))
     { metadata := m', layout := layout, err := false,
-      conns := (s.conns.filter (fun e => !del.contains e.1)) ++
-        add.map (fun id => (id, (lookupD layout.brokers id Broker.zero).addr)) }
+      conns := applySets KV.Gen.Routing.updateApplyOrder s.conns (delSet s.layout.brokers layout.brokers)
+        ((addSet s.layout.brokers layout.brokers).map (fun id => (id, (lookupD layout.brokers id Broker.zero).addr))) }
 
 end KV.Routing
